@@ -51,10 +51,52 @@ def _group_tests(rowid, rows, x, feat, n_feat, L):
     return pv, (gi, li, counts, m, p)
 
 
+def _autocorr_scan(x, P, L, min_terms_var=100.0):
+    """All-lag dependence scan across agents for one (variable, period) draw.
+
+    r_i = 1[x_i = l] - P_i[l] for agents whose own row has 0.1 <= P_i[l] <= 0.9 (0 otherwise; the
+    mask is fixed before the draw).  Under independence A(k) = sum_i r_i r_{i+k} has mean 0 and
+    variance V(k) = sum_i v_i v_{i+k}, v_i = P_i[l](1 - P_i[l]); |r_i r_j| <= 0.81.  Bernstein:
+    P(|A(k)| >= t) <= 2 exp(-t^2 / (2 (V(k) + 0.81 t / 3))).  Returns (smallest bound, number of
+    (label, lag) pairs tested, description).  A key stream that repeats with ANY period p makes
+    x_i = x_{i+p} for agents with equal rows, i.e. A(p) ~ sum v_i: bound ~ exp(-hundreds)."""
+    n = len(x)
+    if n < 4000:
+        return 1.0, 0, ""
+    m = 1 << int(np.ceil(np.log2(2 * n)))
+    best = (1.0, "")
+    tests = 0
+    for lab in range(L):
+        p = P[:, lab]
+        mask = (p >= 0.1) & (p <= 0.9)
+        if mask.sum() < 2000:
+            continue
+        r = np.where(mask, (x == lab).astype(np.float64) - p, 0.0)
+        v = np.where(mask, p * (1.0 - p), 0.0)
+        fr = np.fft.rfft(r, m)
+        fv = np.fft.rfft(v, m)
+        A = np.fft.irfft(fr * np.conj(fr), m)[1 : n // 2]
+        V = np.fft.irfft(fv * np.conj(fv), m)[1 : n // 2]
+        ok = V >= min_terms_var
+        if not ok.any():
+            continue
+        t = np.abs(A[ok])
+        logb = np.log(2.0) - t * t / (2.0 * (V[ok] + 0.27 * t))
+        tests += int(ok.sum())
+        j = int(np.argmin(logb))
+        b = float(np.exp(max(logb[j], -700.0)))
+        if b < best[0]:
+            lag = int(np.flatnonzero(ok)[j]) + 1
+            best = (b, f"label {lab}: agents i and i+{lag}: sum of residual products {float(A[ok][j]):.1f}, standard deviation under independence {float(np.sqrt(V[ok][j])):.1f}")
+    return best[0], tests, best[1]
+
+
 def oracle_c04_stats(h):
     out = []
     summary = {"panels": 0, "tests": 0, "draws": 0, "min_p_log10": 0.0, "zero_prob_rows_seen": 0, "degenerate_rows_seen": 0}
     seen_digest = set()
+    pooled = {}  # (model, variable, row) -> [label counts, draws, ops]   over panels with pairwise different seeds
+    pooled_seeds = {}  # model -> seeds already pooled
     for r in h.ok("SIMULATE"):
         if "result" not in r:
             continue
@@ -77,6 +119,10 @@ def oracle_c04_stats(h):
         per = [frame_rows(fd, t)[0] for t in range(T)]
         idx = np.arange(n)
         bad_zero = None
+        sd = op.get("seed")
+        sd = 12345 if sd is None else int(sd)
+        pool_this = sd not in pooled_seeds.setdefault(op["model_id"], set())
+        pooled_seeds[op["model_id"]].add(sd)
         for t in range(T - 1):
             env = {k: per[t][k] for k in ev.states + ev.choices if k in per[t]}
             for s in ev.stochastic:
@@ -95,6 +141,14 @@ def oracle_c04_stats(h):
                     i = int(np.flatnonzero(pz <= 0)[0])
                     bad_zero = f"agent {i} drew {s}={x[i]} in period {t} although its row is {P[i].tolist()}"
                 draws[(s, t)] = (x, rowid, rows, L)
+                if pool_this:
+                    cnt = np.bincount(rowid * L + x, minlength=len(rows) * L).reshape(len(rows), L)
+                    for ri in range(len(rows)):
+                        e = pooled.setdefault((op["model_id"], s, tuple(float(v) for v in rows[ri])), [np.zeros(L, dtype=np.int64), 0, []])
+                        e[0] += cnt[ri]
+                        e[1] += int(cnt[ri].sum())
+                        if r["id"] not in e[2]:
+                            e[2].append(r["id"])
                 feats = [("all agents of the cell", np.zeros(n, dtype=np.int64), 1)]
                 for mod in MODULI:
                     feats.append((f"agent index mod {mod}", idx % mod, mod))
@@ -123,6 +177,9 @@ def oracle_c04_stats(h):
                         feats.append((f"same-period draw of {s2}", draws[(s2, t)][0], draws[(s2, t)][3]))
                     if s2 != s and (s2, t - 1) in draws:
                         feats.append((f"previous-period draw of {s2}", draws[(s2, t - 1)][0], draws[(s2, t - 1)][3]))
+                ab, at, adesc = _autocorr_scan(x, P, L)
+                if at:
+                    pvals.append((ab, at, f"{s} drawn in period {t}, all-lag scan across agents: {adesc}"))
                 for fname, f, nf in feats:
                     pv, info = _group_tests(rowid, rows, x, f, nf, L)
                     if len(pv) == 0:
@@ -152,4 +209,28 @@ def oracle_c04_stats(h):
                         h.plan,
                     )
                 )
+    # pooled over the panels of the run that were simulated with pairwise different seeds (independent
+    # draws): label counts per (variable, row) are Binomial(total draws, row[label]) - several times
+    # the power of a single panel against a small systematic bias
+    tests = []
+    for (mid, sname, row), (cnt, m, ops_) in pooled.items():
+        if m < 5 * MIN_GROUP or len(ops_) < 2:
+            continue
+        for lab, pr in enumerate(row):
+            if 0.0 < pr < 1.0:
+                tests.append((float(_binom_two_sided(int(cnt[lab]), int(m), pr)), mid, sname, row, lab, int(cnt[lab]), int(m), ops_))
+    summary["pooled_tests"] = len(tests)
+    summary["pooled_draws"] = int(sum(v[1] for v in pooled.values()))
+    if tests:
+        pmin, mid, sname, row, lab, c, m, ops_ = min(tests, key=lambda z: z[0])
+        if pmin < FAMILY_ALPHA / len(tests):
+            rec = h.by_id[ops_[0]]
+            out.append(
+                _viol(
+                    "C04", "distribution", rec,
+                    f"pooled over ops {ops_} (pairwise different seeds): {sname} with row {list(row)}: label {lab} occurred {c} times in {m} draws, "
+                    f"expected {m * row[lab]:.1f}; exact binomial p = {pmin:.3g} < {FAMILY_ALPHA / len(tests):.3g} (family-wise 1e-9 over {len(tests)} pooled tests)",
+                    h.plan,
+                )
+            )
     return out, summary
